@@ -45,6 +45,39 @@ def vars_of(lits):
     return max([abs(l) for l in lits] + [0])
 
 
+def wide_oracle(cs, is_opb, lits, pred, n):
+    """13..17 variables: all assignments at once, truth tables as Python integers (harness.props.C05.Tables);
+    beyond that a sample of 4096 assignments.  OPB constraints must have unit coefficients."""
+    from harness.props.C05 import Tables
+    T = Tables(n, common.sub_rng(0, "C04-wide", n, len(cs)))
+    lt = [T.lit(T.var, l) for l in lits]
+    want = T.count_pred(lt, pred)
+    got = T.mask
+    for c in cs:
+        if is_opb:
+            terms, op, k = list(c)[:-2], c[-2], c[-1]
+            if any(coef != 1 for coef, _ in terms):
+                return None
+            tt = [T.lit(T.var, l) for _, l in terms]
+            if op == ">=" and k == 1:
+                t = 0
+                for x in tt:
+                    t |= x
+            else:
+                t = T.count_pred(tt, lambda cnt: denote(op, cnt, k))
+        else:
+            t = 0
+            for l in c:
+                t |= T.lit(T.var, l)
+        got &= t
+    if got != want:
+        diff = got ^ want
+        a = (diff & -diff).bit_length() - 1
+        return {"assignment": T.assignment(a), "formula_accepts": bool((got >> a) & 1), "arithmetic_says": bool((want >> a) & 1),
+                "number_of_constraints": len(cs), "exhaustive": T.exhaustive}
+    return None
+
+
 def truth_oracle(get_constraints, is_opb, lits, pred):
     """the formula appended by the real builder must accept exactly the assignments with pred(count)"""
     def oracle():
@@ -54,7 +87,7 @@ def truth_oracle(get_constraints, is_opb, lits, pred):
             return {"builder_raised_on_legal_input": True}
         n = vars_of(lits)
         if n > 12:
-            return None
+            return wide_oracle(cs, is_opb, lits, pred, n)
         for alpha in common.assignments(n):
             got = common.opb_holds(cs, alpha) if is_opb else common.cnf_holds(cs, alpha)
             want = pred(count_true(alpha, lits))
@@ -182,6 +215,17 @@ def cases(ctx):
             for lits in ([], [1], [-1], [1, 2, 3], [-1, 2, -3], [1, 1], [1, -1], [2, -2, 2]):
                 for k in range(-2, len(lits) + 3):
                     infos.append(("lin", dict(lits=lits, op=op, k=k, opb=opb)))
+    # --- wide constraints: thousands of clauses from one call (block sizes 4096 / 65536; seeded changes C04-6, C05-6)
+    for opb in (False, True):
+        for n in ([13, 14, 15] if tier == "quick" else [13, 14, 15, 16, 17]):
+            lits = [v if rng.random() < .6 else -v for v in range(1, n + 1)]
+            rng.shuffle(lits)
+            infos.append(("parity", dict(lits=lits, b=n % 2, opb=opb, kind=rng.choice(["list", "tuple", "generator"]))))
+        lits = [v if rng.random() < .6 else -v for v in range(1, 17)]
+        infos.append(("lin", dict(lits=lits, op="==", k=8, opb=opb)))
+        infos.append(("lin", dict(lits=lits[:15], op=">=", k=7, opb=opb)))
+        infos.append(("lin", dict(lits=lits[:14], op="!=", k=7, opb=opb)))
+        infos.append(("maj", dict(lits=lits[:15], which=rng.randrange(4), opb=opb)))
     reps = 700 if tier == "quick" else 9000
     for _ in range(reps):
         n = rng.choice([0, 1, 2, 3, 3, 4, 4, 5, 5, 6, 7, 8, 9])
